@@ -15,6 +15,32 @@ import time
 import traceback
 
 
+_SLOT = None
+
+
+def _machine_slot(n_slots: int = 2):
+    """At most `n_slots` checks run their 16 workers at the same time on this machine (development convenience:
+    several sessions share the 16 cores). A lone run takes a slot immediately; VF_NO_LOCK=1 bypasses."""
+    global _SLOT
+    if os.environ.get("VF_NO_LOCK") == "1":
+        return
+    import fcntl
+    import tempfile
+
+    base = os.path.join(tempfile.gettempdir(), "vf_slots")
+    os.makedirs(base, exist_ok=True)
+    files = [open(os.path.join(base, f"slot{i}.lock"), "w") for i in range(n_slots)]
+    while True:
+        for f in files:
+            try:
+                fcntl.flock(f, fcntl.LOCK_EX | fcntl.LOCK_NB)
+                _SLOT = f  # keep the descriptor (and the lock) until the process exits
+                return
+            except OSError:
+                continue
+        time.sleep(0.5)
+
+
 def main(argv=None) -> int:
     from vf.core import env
 
@@ -36,6 +62,7 @@ def main(argv=None) -> int:
         args.replay = os.path.abspath(args.replay)
     t0 = time.time()
     os.environ.setdefault("VF_SHRINK_BUDGET_S", "15" if args.tier == "quick" else "90")
+    _machine_slot()
     scratch = env.enter_scratch()
     os.environ["VF_SCRATCH_BASE"] = str(scratch)  # worker scratch dirs live inside ours and vanish with it
     try:
